@@ -6,19 +6,24 @@ import GomlVerif.Model.Dce
 executable `Bool` functions so that the driver can count how many REAL ANF functions satisfy it
 and print why the others do not.
 
-Stage (a) of the back end: scalars (unit, bool, the eight integer types, string — no float
-literals), arithmetic / comparison / logic operators on immediates, `let`, `if`, `while`, calls to
-top-level functions of the file that are themselves in the fragment, and the printing / string
-builtins of `builtinSig`.  The predicate is a small type checker: every variable is in scope with
-the type its use site carries, every operator is applied at a type on which `Sem` and `Go.Sem`
-both define it, every call has the callee's arity and types.
+Stage (a) of the back end plus struct values of stage (b): scalars (unit, bool, the eight integer
+types, string — no float literals) and values of admitted struct types (`goodStructs`: known,
+non-generic, Go field names pairwise distinct, every field a scalar or an admitted struct; user
+structs and the closure-environment structs of lambda lifting alike), arithmetic / comparison /
+logic operators on scalar immediates, struct construction and field access, `let`, `if`, `while`,
+calls to top-level functions of the file that are themselves in the fragment (hence also the
+`apply` functions of closures when called by name), and the printing / string builtins of
+`builtinSig`.  The predicate is a small type checker: every variable is in scope with the type its
+use site carries, every operator is applied at a type on which `Sem` and `Go.Sem` both define it,
+every call and constructor has the right arity and types.
 
 Besides the source-side check there is a Go-side one, evaluated on the model's own output for the
 function (`goLocalOK`): the names the compiled function declares (`vn x`, `ret<n>`, `cond<n>`) are
 pairwise distinct, none of them is `_`, and none is the Go name of a callee — i.e. `go_ident` and
 the renaming did not merge two names and no temporary captures anything.  File level
 (`fileOK`): Go function names are pairwise distinct (so that `findFunc` finds the compiled
-function), no user function is spelled like a builtin or like a Go function the runtime calls.
+function), no user function is spelled like a builtin or like a Go function the runtime calls, the
+set of admitted structs is closed and the emitted file declares each of them with its fields.
 -/
 namespace Goml.GoFrag
 open Goml Goml.Go Goml.GoCompile
@@ -31,12 +36,53 @@ def scalarTy : Ty → Bool
   | .string => true
   | _ => false
 
-/-- equality of scalar types -/
+/-- equality of fragment types (scalars, and struct types by name) -/
 def scalarEq : Ty → Ty → Bool
   | .unit, .unit => true
   | .bool, .bool => true
   | .int b s, .int b' s' => b == b' && s == s'
   | .string, .string => true
+  | .struct a, .struct b => a == b
+  | _, _ => false
+
+/-- scalar or a struct type (by name) -/
+def flatTy : Ty → Bool
+  | .struct _ => true
+  | t => scalarTy t
+
+/-- value types relative to a set `S` of admitted struct names -/
+def valTyS (S : List String) : Ty → Bool
+  | .struct n => S.contains n
+  | t => scalarTy t
+
+/-- a struct admitted as a value type: known, not generic, Go field names pairwise distinct, every
+    field a scalar or an admitted struct (closure-environment structs are ordinary structs here) -/
+def structLocalOK (env : Env) (S : List String) (n : String) : Bool :=
+  match env.getStruct n with
+  | some d => d.generics.isEmpty && (d.fields.map fun f => gid f.1).Nodup && d.fields.all (fun f => valTyS S f.2)
+  | none => false
+
+/-- candidate set of admitted structs: iterate "drop the structs that fail the local check" -/
+def refineStructs (env : Env) : Nat → List String → List String
+  | 0, S => S
+  | k + 1, S =>
+    let S' := S.filter (structLocalOK env S)
+    if S'.length == S.length then S else refineStructs env k S'
+
+def goodStructs (env : Env) : List String :=
+  refineStructs env (env.structsLookup.length + 1) (env.structsLookup.map (·.name)).eraseDups
+
+/-- the closure property the proofs use (re-checked, not proved of the iteration) -/
+def structsClosed (env : Env) : Bool := (goodStructs env).all (structLocalOK env (goodStructs env))
+
+/-- the value types of the fragment -/
+def valTy (env : Env) (t : Ty) : Bool := valTyS (goodStructs env) t
+
+/-- the emitted file declares the struct with exactly these field names (what a composite literal
+    of the type evaluates against) -/
+def structTableOK (env : Env) (F : GFile) (n : String) : Bool :=
+  match F.structFields (gid n), env.getStruct n with
+  | some decl, some d => decl.map (·.1) == d.fields.map (fun f => gid f.1)
   | _, _ => false
 
 def intTy : Ty → Bool
@@ -154,6 +200,16 @@ def fragC (env : Env) (file : AFile) (G : List String) (Γ : Ctx) : CExpr → Bo
   | .un op e ty => immOK Γ e && unOK op e.ty ty
   | .bin op l r ty => immOK Γ l && immOK Γ r && binOK op l.ty r.ty ty
   | .call f args ty => callOK env file G Γ f args ty
+  | .constr (.struct sn) args ty =>
+    scalarEq ty (.struct sn) && (goodStructs env).contains sn &&
+    (match env.getStruct sn with
+     | some d => argsOK Γ args (d.fields.map (·.2))
+     | none => false)
+  | .cget e (.struct sn) idx ty =>
+    immOK Γ e && scalarEq e.ty (.struct sn) && !scalarEq ty .unit &&
+    (match cgetField env e (.struct sn) idx with
+     | some ft => scalarEq ty ft.2
+     | none => false)
   | .ite c t e ty =>
     immOK Γ c && scalarEq c.ty .bool && fragA env file G Γ t && fragA env file G Γ e &&
     scalarEq (aTy t) ty && scalarEq (aTy e) ty
@@ -198,7 +254,7 @@ def paramCtx (f : AFn) : Ctx := f.params.reverse
 
 /-- the source-side check of one function -/
 def srcLocalOK (env : Env) (file : AFile) (G : List String) (f : AFn) : Bool :=
-  f.params.all (fun p => scalarTy p.2) && scalarTy f.ret &&
+  f.params.all (fun p => valTy env p.2) && valTy env f.ret &&
   fragA env file G (paramCtx f) f.body && scalarEq (aTy f.body) f.ret
 
 /-- the Go-side check of one function, on the model's own output for it -/
@@ -227,7 +283,8 @@ def fileOK (env : Env) (file : AFile) (n : Nat) : Bool :=
   let F := (goFilePreSt env file n).1
   (F.funcs.map (·.name)).Nodup && (file.map (·.name)).Nodup &&
   file.all (fun f => !builtinNames.contains f.name) &&
-  reservedGoNames.all (fun r => (F.findFunc r).isNone)
+  reservedGoNames.all (fun r => (F.findFunc r).isNone) &&
+  structsClosed env && (goodStructs env).all (structTableOK env F)
 
 /-- `G` is closed: the file-level conditions hold and every member passes the local checks with
     all its callees in `G` -/
@@ -301,11 +358,17 @@ def reasonC (env : Env) (file : AFile) (G : List String) (Γ : Ctx) : CExpr → 
     ((reasonA env file G Γ c).orElse fun _ => reasonA env file G Γ b).orElse fun _ =>
       if scalarEq (aTy c) .bool && scalarEq (aTy b) .unit && scalarEq ty .unit then none else some "while:type"
   | .constr (.enum _ _ _) _ _ => some "node:enum-constructor"
-  | .constr (.struct n) _ _ => some (if isClosureEnv n then "node:closure-env-constructor" else "node:struct-constructor")
+  | .constr (.struct n) args ty =>
+    if fragC env file G Γ (.constr (.struct n) args ty) then none
+    else (firstSome args (immReason Γ)).orElse fun _ =>
+      some (if isClosureEnv n then "node:closure-env-constructor(field types)" else "node:struct-constructor(generic or field types)")
   | .tuple _ _ => some "node:tuple"
   | .array _ _ => some "node:array"
   | .matchE _ _ _ _ => some "node:match"
-  | .cget _ _ _ _ => some "node:field-get"
+  | .cget e c idx ty =>
+    if fragC env file G Γ (.cget e c idx ty) then none
+    else (immReason Γ e).orElse fun _ =>
+      some (match c with | .struct _ => "node:field-get(" ++ immReason.tyClass ty ++ ")" | .enum _ _ _ => "node:enum-field-get")
   | .toDyn _ _ _ _ => some "node:to-dyn"
   | .dynCall _ _ _ _ _ => some "node:dyn-call"
   | .go _ _ => some "node:go"
@@ -319,9 +382,9 @@ end
 def outsideReason (env : Env) (file : AFile) (n : Nat) (G : List String) (closed : Bool) (st : St) (f : AFn) : Option String :=
   if closed && G.contains f.name then none
   else if !fileOK env file n then some "file:go-function-names-collide-or-reserved"
-  else if !(f.params.all (fun p => scalarTy p.2)) then
-    some ("signature:non-scalar-parameter:" ++ ((f.params.find? (fun p => !scalarTy p.2)).map (fun p => immReason.tyClass p.2)).getD "?")
-  else if !scalarTy f.ret then some ("signature:non-scalar-result:" ++ immReason.tyClass f.ret)
+  else if !(f.params.all (fun p => valTy env p.2)) then
+    some ("signature:parameter:" ++ ((f.params.find? (fun p => !valTy env p.2)).map (fun p => immReason.tyClass p.2)).getD "?")
+  else if !valTy env f.ret then some ("signature:result:" ++ immReason.tyClass f.ret)
   else
     match reasonA env file G (paramCtx f) f.body with
     | some r => some r
